@@ -213,11 +213,14 @@ class FakeGitHub:
         p = self.prs[n]
         self.merge_attempts += 1
         await self._suspend('put')              # the merge request is on the wire
-        if not p['open'] or data.get('sha') != p['head']:
+        # GitHub's documented rule: `sha` is optional; when given it must equal the PR's current head, else 409
+        # "Head branch was modified"; without it GitHub merges whatever the head is now
+        if not p['open'] or ('sha' in (data or {}) and data['sha'] != p['head']):
             raise HTTPException(409)
         if not choose(f'gh_accepts_merge_{self.merge_attempts}', [True, False]):
             raise HTTPException(405)
-        self.merges.append({'pr': n, 'head': p['head'], 'target_before': self.target, 'labels': set(p['labels']),
+        self.merges.append({'pr': n, 'head': p['head'], 'requested_sha': (data or {}).get('sha'),
+                            'target_before': self.target, 'labels': set(p['labels']),
                             'review': p['review'], 'status': dict(self.status.get(p['head'], {}))})
         p['open'] = False
         self.target = self.fresh('t')
@@ -273,6 +276,7 @@ class World:
         self.run_phases = set()
         self.run_start_clock = 0
         self.inflight = 0
+        self.pending_github_notification = False
         self.db = FakeDB()
         self.wb = G.WatchedBranch(0, G.FQBranch(G.Repo('o', 'r'), 'main'), deployable=False, mergeable=True, developers=[])
         self.merge_seen = []      # what CI believed at each accepted merge (for the staleness oracle)
@@ -351,7 +355,7 @@ class World:
             self.depth -= 1
 
 
-EVENTS = ['push', 'review', 'label', 'status', 'batch_done', 'target_move', 'poll']
+EVENTS = ['push', 'review', 'label', 'status', 'batch_done', 'target_move', 'poll', 'push_late']
 
 
 def apply_event(w, tag, events, during=None):
@@ -359,16 +363,24 @@ def apply_event(w, tag, events, during=None):
     it triggers ('github' | 'batch' | 'full'), or None when nothing is applicable."""
     open_prs = [n for n, p in sorted(w.gh.prs.items()) if p['open']]
     running = [b for b in w.bc.batches if b.state == 'running']
-    applicable = [e for e in events if not (e in ('push', 'review', 'label', 'status') and not open_prs)
+    applicable = [e for e in events if not (e in ('push', 'push_late', 'review', 'label', 'status') and not open_prs)
                   and not (e == 'batch_done' and not running)]
     if not applicable:
         return None
     ev = choose(f'{tag}', applicable)
     n = open_prs[0] if open_prs else 1
-    if ev in ('push', 'review', 'label', 'status') and len(open_prs) > 1:
+    if ev in ('push', 'push_late', 'review', 'label', 'status') and len(open_prs) > 1:
         n = choose(f'{tag}_pr', open_prs)
     p = w.gh.prs[n]
     note = (ev,) if during is None else (f'{ev} [while the update waits in {during}]',)
+    if ev == 'push_late':
+        # the author pushes, GitHub's head moves, but the webhook reaches CI only after the NEXT event was processed
+        p['head'] = w.gh.fresh('c')
+        p['history'].append(p['head'])
+        w.gh.touch('head', n)
+        w.pending_github_notification = True
+        w.trace.append(note + (n, p['head'], 'webhook delayed'))
+        return 'none'
     if ev == 'push':
         olds = p['history'][:-1]
         tgt = choose(f'{tag}_to', ['fresh'] + olds) if olds else 'fresh'
@@ -422,9 +434,18 @@ async def history(npr, k, events=EVENTS, flood_sizes=None, intr=None):
         p['review'] = choose(f'init_review_{n}', ['REVIEW_REQUIRED', 'APPROVED'])
     await w.ci('full')
     for step in range(k):
+        late = w.pending_github_notification
         kind = apply_event(w, f'ev{step}', events)
-        if kind is not None:
+        if kind is not None and kind != 'none':
             await w.ci(kind)
+        if late and w.pending_github_notification:
+            w.pending_github_notification = False
+            w.trace.append(('delayed push webhook arrives',))
+            await w.ci('github')
+    if w.pending_github_notification:
+        w.pending_github_notification = False
+        w.trace.append(('delayed push webhook arrives',))
+        await w.ci('github')
     return w
 
 
@@ -435,8 +456,10 @@ def judge(w):
     against a merge when GitHub's truth violates it AT THE MOMENT OF THE MERGE and its last change happened BEFORE THE
     MERGING UPDATE RUN STARTED.  Every change is notified at once in this model, so CI had acknowledged that
     notification (the webhook handler had returned) before it began the run that merged: "merges only if …" was then
-    decided on information CI had been told is outdated.  A change that arrives while the merging run itself is in
-    flight is the unavoidable race with GitHub and is tolerated (counted in World.inflight_merges).  With atomic
+    decided on information CI had been told is outdated.  The merged COMMIT is judged unconditionally: GitHub's head at
+    the moment of the merge must be the commit CI verified (the merge endpoint's `sha` guard makes that enforceable),
+    and statuses / batch are those of that commit.  A change of review, labels, a status or the target that arrives
+    while the merging run itself is in flight is the unavoidable race with GitHub and is tolerated (counted in World.inflight_merges).  With atomic
     updates every change precedes the run, and this is the plain 'truth at merge time' oracle."""
     bad = []
     per_update = {}
@@ -445,19 +468,21 @@ def judge(w):
         per_update[seen['update']] = per_update.get(seen['update'], 0) + 1
         n, head, t0, ch = m['pr'], m['head'], seen['run_start_clock'], seen['changed']
         rv, st = m['review'], m['status']
+        bad.append((f'merge of pr {n}: GitHub merged head {head} but CI had verified {seen["source_sha"]} (merge request '
+                    f'carried sha={m["requested_sha"]})', z3.BoolVal(head != seen['source_sha'])))
         comps = [('not approved', z3.Not(rv.is_('APPROVED')) if isinstance(rv, SEnum) else z3.BoolVal(rv != 'APPROVED'),
                   [('review', n)]),
                  ('do-not-merge label', z3.BoolVal(any(l in DO_NOT_MERGE for l in m['labels'])), [('labels', n)]),
-                 ('no status on the merged head commit', z3.BoolVal(len(st) == 0), [('head', n)])]
+                 ('no status on the merged head commit', z3.BoolVal(len(st) == 0), [])]
         for c, s in st.items():
             comps.append((f'status {c} of the merged head commit is not success',
                           z3.Not(s.is_('SUCCESS')) if isinstance(s, SEnum) else z3.BoolVal(s != 'SUCCESS'),
-                          [('status', head, c), ('head', n)]))
+                          [('status', head, c)]))
         b = seen['batch']
         okb = (b is not None and isinstance(b, FakeBatch) and b.state == 'success'
                and b.attributes.get('source_sha') == head and b.attributes.get('target_sha') == m['target_before'])
         comps.append(('test batch did not succeed on (merged head, current target commit)', z3.BoolVal(not okb),
-                      [('target',), ('head', n)]))
+                      [('target',)]))
         for what, f, keys in comps:
             known_before_run = all(ch.get(k, 0) < t0 for k in keys)
             if not known_before_run:
